@@ -162,6 +162,18 @@ def check(facts, rep, tier, cfg):
         else:
             rep.bad("C05.R4", "finish-once", where, "Finish can be sent more than once / without marking the stream closed (not dominated by the old-value-false edge of swap(true))")
     rep.floor("C05.R4", "stream Finish emissions", n, 1)
+    # AsyncWrite::poll_shutdown actually shuts the write side down (calls the Finish-sending function on every Ready(Ok) path)
+    import rules_c13 as _c13
+    for b in crate.bodies:
+        if b.name == "poll_shutdown" and b.j.get("impl_self", {}).get("adt") == MUX:
+            fins = [bi for bi, t in b.calls() if callee(t) and _c13._sends_finish(facts, crate, callee(t))]
+            rets = [x for x in range(len(b.blocks)) if b.term(x)["k"] == "Return"]
+            wps = "%s (%s)" % (loc_str(b.loc), b.path)
+            if fins and all(any(b.dominates(f, r) for f in fins) for r in rets):
+                rep.ok("C05.R4", "poll_shutdown-sends-finish", wps, "every return of poll_shutdown is dominated by the Finish-sending call")
+            else:
+                rep.bad("C05.R4", "poll_shutdown-sends-finish", wps, "AsyncWrite::poll_shutdown can return without sending Finish: the peer never sees end-of-stream "
+                                                                    "for a stream that was shut down")
     for b in credit_take_bodies(facts, crate):
         tr = Tracer(facts, b)
         rep.analysed(b)
